@@ -25,6 +25,7 @@ DECIDES = (
     "output named by the function (C03.DIMENSIONS)."
     " every 'ratio == 1' switch of the relations is the same purely absolute test against TOL, no relative closeness test (numpy isclose/allclose defaults) anywhere in the grading modules except the two length-uniformity tests (C03.UNIT-RATIO-TESTS); a chop re-created for another edge hands exactly two quantities to the closure (C03.COPY-WELL-POSED = C04.PRESERVE-CARRIED)."
     ' No logarithm argument or result in grading.relations is clamped into range: an unrealisable request surfaces as an error, not as a repaired count (C03.REJECT-NOT-REPAIR).'
+    ' Nothing in the grading package memoises a value computed from state its class changes later (C03.NO-MEMO); root finders run with default tolerances (C03.SOLVER-TOLERANCE); nothing is rounded to decimals (C03.NO-ROUNDING).'
 )
 NOT_DECIDED = (
     "that the formulas are the geometric-progression identities, rounding of counts, behaviour near ratio 1, finiteness - identities "
